@@ -118,7 +118,10 @@ struct Recovered {
 
 async fn recover_device(w: &mut World, img: &Image, scratch: &Path) -> Recovered {
     materialise(img, scratch);
-    let res = Device::try_open("R", scratch, w.account_id, w.server.clone(), w.cdb, Gate::default()).await;
+    // the account password before the interrupted operation and, if it changed one, the new one
+    let mut pws = vec![crate::sync::password()];
+    pws.extend(w.passwords.values().cloned());
+    let res = Device::try_open_with("R", scratch, w.account_id, w.server.clone(), w.cdb, Gate::default(), &pws).await;
     let out = match res {
         Ok(dev) => {
             w.devs.push(dev);
